@@ -555,6 +555,54 @@ def run_bfgs_case(spec):
     return worst
 
 
+def run_bfgs1_case(spec):
+    """1-pixel histories: every operation of both direction routines is a deterministic IEEE scalar
+    operation, so the model in PrimFloat must reproduce direction and delta coefficients bit for bit.
+    Returns one record per call: (positions so far, gradients so far, p_L, p_VL, delta)."""
+    import nifty.cl as ift
+    rng = np.random.Generator(np.random.PCG64([29, spec["seed"]]))
+    dom = ift.DomainTuple.make(ift.UnstructuredDomain((1,)))
+    a, q, c = spec["a"], spec["q"], spec["c"]
+
+    class FE:
+        def __init__(self, x):
+            self.position = ift.Field.from_raw(dom, np.array([x]))
+            self.gradient = ift.Field.from_raw(dom, np.array([a * x + 4 * q * x**3 + c]))
+
+    ic = ift.GradientNormController(iteration_limit=1)
+    L = ift.L_BFGS(ic, max_history_length=spec["mh"])
+    L.reset()
+    V = ift.VL_BFGS(ic, max_history_length=spec["mh"])
+    V._information_store = None
+    xs, gs, out = [], [], []
+    x = float(rng.normal())
+    for step in range(spec["steps"]):
+        e = FE(x)
+        g = float(e.gradient.asnumpy()[0])
+        if g == 0.0 or (xs and (x == xs[-1] or g == gs[-1])):
+            break                       # degenerate pair (0/0 in both routines): outside the domain
+        xs.append(x)
+        gs.append(g)
+        pl = float(L.get_descent_direction(e).asnumpy()[0])
+        pv = float(V.get_descent_direction(e).asnumpy()[0])
+        dl = [float(t) for t in V._information_store.delta]
+        out.append({"xs": list(xs), "gs": list(gs), "mh": spec["mh"], "pL": pl, "pV": pv, "delta": dl})
+        x = x + float(rng.uniform(0.1, 1.0)) * pl * float(rng.choice([1.0, 0.3])) + 0.01 * float(rng.normal())
+    return out
+
+
+def coq_bfgs1(r):
+    return "bfgs_case %s %s %d %s %s %s" % (
+        C.clist([cf(v) for v in r["xs"]]), C.clist([cf(v) for v in r["gs"]]), r["mh"], cf(r["pL"]), cf(r["pV"]),
+        C.clist([cf(v) for v in r["delta"]]))
+
+
+def gen_bfgs1_spec(rng, i):
+    return {"seed": int(rng.integers(0, 1 << 30)), "a": float(rng.uniform(0.2, 5.0)),
+            "q": float(rng.choice([0.0, 0.1, 1.0])), "c": float(rng.normal()), "mh": int(1 + i % 5),
+            "steps": int(rng.integers(2, 14))}
+
+
 # --------------------------------------------------------------------------------------------------
 # Case generation
 # --------------------------------------------------------------------------------------------------
@@ -698,7 +746,7 @@ class C16(C.Check):
         "hand-written model coq/C16/Model.v of LineSearch.perform_line_search/_zoom and DescentMinimizer.__call__ (tied by bit-exact correspondence, not by translation)",
         "_cubicmin/_quadmin are oracles of the model: their outputs are recorded from the implementation through a LineSearch subclass",
         "the 1-D recording energy of the harness (start 0, direction +-2^k, so that position/direction is the step length exactly)",
-        "L_BFGS/VL_BFGS direction equality is checked by the direct oracle only (no Coq theorem)",
+        "window abstraction of the BFGS models: 'the last min(k, max_history_length) pairs' stands for the ring buffers and the cached Gram entries of _InformationStore (tied by bit-exact replay of 1-pixel histories that wrap the buffer, and by the n-D direct oracle)",
     ]
     assumptions = [
         "phi and phi' are deterministic functions of the step length (Energy objects are immutable)",
@@ -707,7 +755,7 @@ class C16(C.Check):
     ]
 
     def __init__(self):
-        self.ls_obs, self.dm_obs, self.bfgs_specs = [], [], []
+        self.ls_obs, self.dm_obs, self.bfgs_specs, self.bfgs1_specs, self.b1_obs = [], [], [], [], []
 
     def _cases(self, ctx):
         rng = ctx.rng(16)
@@ -718,6 +766,8 @@ class C16(C.Check):
         ls += [gen_ls_spec(rng) for _ in range(nls)]
         dm += [gen_dm_spec(rng, i) for i in range(ndm)]
         bf += [gen_bfgs_spec(rng, i) for i in range(nb)]
+        self.bfgs1_specs = [c["spec"] for c in ctx.corpus() if c.get("kind") == "bfgs1"]
+        self.bfgs1_specs += [gen_bfgs1_spec(rng, i) for i in range(nb // 2)]
         return ls, dm, bf
 
     def correspondence(self, ctx, res):
@@ -730,10 +780,16 @@ class C16(C.Check):
         self.dm_obs = [o for o in self.dm_obs if o["result"] is not None] + dm_exc
         ndm_ok = len(self.dm_obs) - len(dm_exc)
         checks = [coq_ls_case(o) for o in self.ls_obs] + [coq_dm_case(o) for o in self.dm_obs[:ndm_ok]]
+        self.b1_obs = [r for sp in self.bfgs1_specs for r in run_bfgs1_case(sp)]
+        n_pre = len(checks)
+        checks += [coq_bfgs1(r) for r in self.b1_obs]
         bad = C.eval_cases(self.prop, "corr", HEADER, checks)
         nls = len(self.ls_obs)
         for i in bad[:4]:
-            if i < nls:
+            if i >= n_pre:
+                r = self.b1_obs[i - n_pre]
+                res.add_broken("correspondence", "L_BFGS/VL_BFGS.get_descent_direction vs coq/C16/Model.v", {"kind": "bfgs1", **r})
+            elif i < nls:
                 o = self.ls_obs[i]
                 res.add_broken("correspondence", "LineSearch.perform_line_search vs coq/C16/Model.v",
                                {"kind": "ls", "spec": o["spec"], "result": o["result"], "log": o["log"][:40],
@@ -750,6 +806,7 @@ class C16(C.Check):
         raised = sum(1 for o in self.ls_obs if o["result"][0] == "raise")
         nontriv = {C.stable_hash(o["spec"]) for o in self.ls_obs if len(o["log"]) > 4}
         nontriv |= {C.stable_hash(o["spec"]) for o in self.dm_obs if len(o["ls"]) >= 1}
+        nontriv |= {C.stable_hash([r["xs"], r["mh"]]) for r in self.b1_obs if len(r["xs"]) >= 2}
         stat = {}
         for o in self.dm_obs:
             key = "%s:%s" % (o["spec"]["minimizer"], "none" if o["result"] is None else ST[o["result"][1]])
@@ -761,7 +818,8 @@ class C16(C.Check):
             "input_distribution": {"line_search_cases": nls, "entered_zoom": zoomed, "backtracked": backtracked,
                                    "success": succ, "raised": raised, "minimiser_runs": len(self.dm_obs),
                                    "minimiser_runs_ended_by_exception_not_replayed": len(dm_exc),
-                                   "minimiser_outcomes": stat},
+                                   "minimiser_outcomes": stat, "bfgs_direction_calls_1px": len(self.b1_obs),
+                                   "bfgs_calls_with_wrapped_ring_buffer": sum(1 for r in self.b1_obs if len(r["xs"]) - 1 > r["mh"])},
             "disagreements": len(bad), "exhaustive": False,
         })
         return bad
